@@ -197,6 +197,98 @@ def notification(P, R):
     R.floor('C15.MPT.1', 5)
 
 
+def merge_details(P, R, rule='C15.MPT.6'):
+    """Four small invariants of the merge that the coarser rules do not see:
+    (flag)   the "membership changed" flag only ever goes up inside the merge loop - a plain assignment of a later
+             child's result would forget an earlier splice or removal and the section hook would not run;
+    (parent) a node spliced into an object names that object as its parent (the scratch object it came from is freed);
+    (pair)   the host/service change test compares BOTH texts, each new text with its own saved original;
+    (alias)  the plain string's remembered text aliases the node's current text: whenever the function that refreshes
+             it is left on the plain-text arm, the alias has been re-pointed (the old text is freed by the caller)."""
+    rv = P.need_fn('conf_replace_value')
+    hs = [t for t in hook_calls(P) if t.fn is rv]
+    fam = set()
+    for s in hs:
+        for g in rv.guards(s.bid):
+            if is_var(g[0]) and g[0].get('t') == 'int' and g[0].get('sc') == 'local' and g[1] == '!=' and const_of(g[2]) == 0:
+                fam.add(g[0]['name'])
+    n = 0
+    for t in rv.stores():
+        ev = t.ev
+        if ev['k'] != 'store' or not is_var(ev.get('lhs')) or ev['lhs']['name'] not in fam:
+            continue
+        in_loop = t.bid in rv.reach([e.dst for e in rv.out[t.bid]])
+        if not in_loop:
+            continue
+        c = const_of(ev.get('rhs'))
+        ok = ev.get('op') == '|=' or (ev.get('op') == '=' and isinstance(c, int) and c != 0)
+        n += 1
+        R.ob(rule, ok, t, 'inside the merge loop the change flag %s is only raised (found `%s %s %s`)' % (ev['lhs']['name'], ev['lhs']['name'], ev.get('op'), sx(ev.get('rhs'))), key='flag-monotone')
+    # parent
+    for f in P.unit_fns(rv.unit):
+        for s in f.calls('set_insert'):
+            a0 = s.ev['args'][0] if s.ev['args'] else {}
+            cont = [x for x in walk(a0) if x.get('k') == 'mem' and x.get('field') == 'contents']
+            if not cont:
+                continue
+            owner = cont[0].get('base')
+            ps = [t for t in f.block_sites(s.bid) if t.ev['k'] == 'store' and is_field(t.ev.get('lhs'), 'parent') and t.ev.get('op') == '=' and t.idx < s.idx]
+            for t in ps:
+                n += 1
+                R.ob(rule, sx(t.ev.get('rhs')) == sx(owner), t, 'the node inserted into %s is given that object as its parent (found %s)' % (sx(a0), sx(t.ev.get('rhs'))), key='parent-link:%s' % f.name)
+    # pair
+    cmps = []
+    for b in rv.blocks:
+        c = rv.term_cond(b)
+        for x in walk(c) if c is not None else ():
+            if x.get('k') == 'callref' and x.get('callee') in ('strcasecmp', 'strcmp') and len(x['args']) == 2:
+                fl = []
+                for a in x['args']:
+                    if is_var(a) and rv.single_def(a['name']):
+                        a = rv.single_def(a['name'])[1]
+                    fl.append([y.get('field') for y in walk(a) if y.get('k') == 'mem' and y.get('field') in ('hostname', 'service')])
+                if any(fl):
+                    cmps.append((b, fl))
+    if cmps:
+        seen = set()
+        for b, fl in cmps:
+            same_field = len(fl) == 2 and fl[0] and fl[1] and fl[0][-1] == fl[1][-1]
+            n += 1
+            R.ob(rule, same_field, P.relloc(rv.blocks[b]['term'].get('loc')) if (rv.blocks[b].get('term') or {}).get('loc') else rv,
+                 'a text comparison of the host/service test compares a field with its own saved original (%s vs %s)' % (fl[0], fl[1]), key='pair-own-field')
+            if same_field:
+                seen.add(fl[0][-1])
+        n += 1
+        R.ob(rule, seen >= {'hostname', 'service'}, rv, 'the host/service change test compares both texts (compared: %s)' % sorted(seen), key='pair-both')
+    # alias
+    sv = P.need_fn('conf_parse_string_value')
+    plain = None
+    for c in P.enums.get('conf_node_string_subtype', []):
+        if c['name'] == 'CONF_STRING_PLAIN':
+            plain = c['v']
+    al = [t for t in sv.stores() if t.ev['k'] == 'store' and is_field(t.ev.get('lhs'), 'p_string') and is_field(t.ev.get('rhs') or {}, 'value')]
+    if al and plain is not None:
+        def on_edge(st, e):
+            if e.label == 'case' and e.cond is not None and is_field(e.cond, 'subtype'):
+                return (plain in (e.vs or []), st[1])
+            if e.label == 'default' and e.cond is not None and is_field(e.cond, 'subtype'):
+                return (True, st[1])
+            return st
+
+        def on_event(st, t):
+            ev = t.ev
+            if ev['k'] == 'store' and is_field(ev.get('lhs'), 'p_string'):
+                return (st[0], is_field(ev.get('rhs') or {}, 'value') or const_of(ev.get('rhs')) == 0)
+            if ev['k'] == 'store' and is_field(ev.get('lhs'), 'value'):
+                return (st[0], False)
+            if ev['k'] == 'call' and ev.get('callee') == 'memset' and ev['args'] and any(y.get('k') == 'mem' and y.get('field') == 'parsed' for y in walk(ev['args'][0])):
+                return (st[0], True)
+            return st
+        _, at_exit, _, _ = sv.forward((False, False), on_event, on_edge)
+        n += 1
+        R.ob(rule, bool(at_exit) and all(fresh for arm, fresh in at_exit if arm), al[0], 'on the plain-text arm the remembered text is re-pointed at the node\'s current text on every path to the return', key='alias-refresh')
+    R.floor(rule, 5, 'flag raises, parent link, pair comparisons, alias refresh')
+
 def exhaustive(P, R):
     enum = [c['v'] for c in P.enums.get('conf_node_type', [])]
     for name in ('conf_replace_value', 'conf_object_cleanup'):
@@ -407,8 +499,13 @@ def run(P, R, tier):
     removal_reports_change(P, R)
     old_value_lifetime(P, R)
     notification(P, R)
+    merge_details(P, R)
     exhaustive(P, R)
     removal_guard(P, R)
     registration(P, R)
     ownership(P, R, 'C15.OWN.1')
+    # leftovers are removed from, and returning members inserted into, the same ordered container
+    from . import c19
+    c19.link_insert(P, R, 'C15.LINK.1')
+    c19.link_remove(P, R, 'C15.LINK.1')
     return EXPLANATION, ASSUMPTIONS
